@@ -24,6 +24,8 @@ def obligations(tier):
                   bounds="2 captions x shared start or not x length in {31,32,33,40} x the line is one text node or two text nodes around an italics span"))
     obs.append(ch("decode_row_midrow", "harness.C15_scc", timeout=T, functions=("SCCReader.read", "InstructionNodeCreator.interpret_command", "_format_italics"), exhaustive=True,
                   bounds="one row of 12-18 + 12-18 characters with a mid-row italics code in between, decoded in all three modes"))
+    obs.append(ch("decode_row_leading_space", "harness.C15_scc", timeout=T, functions=("SCCReader.read", "length check over the returned captions"), exhaustive=True,
+                  bounds="a row of 30-35 characters beginning with one or two spaces, pop-on / roll-up / paint-on: refused iff longer than 32 cells"))
     obs.append(ch("decode_row_pending", "harness.C15_scc", timeout=T, functions=("SCCReader.read", "_flush_implicit_buffers", "_pop_on", "_roll_up"), exhaustive=True,
                   bounds="a row of 30-36 characters that is still pending when the input ends (pop-on without erase, roll-up without carriage return, paint-on), all three modes"))
     if not q:
